@@ -195,6 +195,7 @@ func udpSeeds() map[string][]seed {
 		m[g.svc] = seedsFromGrammar(g)
 	}
 	m["tftp"] = append(m["tftp"], sd("data stray", "\x00\x03\x00\x01x"), sd("data empty", "\x00\x03\x00\x01"), sd("data hdr short", "\x00\x03\x00"), sd("ack", "\x00\x04\x00\x01"), sd("error", "\x00\x05\x00\x01x\x00"),
+		sd("data full #1", "\x00\x03\x00\x01"+strings.Repeat("d", 512)), sd("data full #2", "\x00\x03\x00\x02"+strings.Repeat("e", 512)), sd("data block 0", "\x00\x03\x00\x00zero"), sd("data last #2", "\x00\x03\x00\x02end"),
 		sd("rrq nonul", "\x00\x01file"), sd("rrq nomode", "\x00\x01file\x00"), sd("op 0", "\x00\x00"), sd("op 9", "\x00\x09abc"), sd("1 byte", "\x00"), sd("wrq+opts", "\x00\x02f\x00octet\x00blksize\x001024\x00"))
 	m["dns"] = append(m["dns"], sd("hdr only", "\x12\x34\x01\x00\x00\x01\x00\x00\x00\x00\x00\x00"), sd("short", "\x12\x34\x01"), sd("ptr loop", "\x12\x34\x01\x00\x00\x01\x00\x00\x00\x00\x00\x00\xc0\x0c\x00\x01\x00\x01"),
 		sd("many q", "\x12\x34\x01\x00\xff\xff\x00\x00\x00\x00\x00\x00\x01a\x00\x00\x01\x00\x01"), sd("label 63+", "\x12\x34\x01\x00\x00\x01\x00\x00\x00\x00\x00\x00\x7fabc\x00\x00\x01\x00\x01"), sd("response", "\x12\x34\x81\x80\x00\x01\x00\x01\x00\x00\x00\x00\x01a\x00\x00\x01\x00\x01\xc0\x0c\x00\x01\x00\x01\x00\x00\x00\x01\x00\x04\x01\x02\x03\x04"),
@@ -243,10 +244,16 @@ func tcpScenario(c *core.Ctx, s *lab.Server, svc, class, desc string, segs [][]b
 	lab.ResetEvents()
 }
 
+// udpSource numbers the scenarios: every scenario sends from its own source address, because the
+// amplification limiter of the UDP services admits four datagrams per source address and ten
+// minutes and drops the rest before they are decoded.
+var udpSource int
+
 func udpScenario(c *core.Ctx, s *lab.Server, svc, class, desc string, dgrams [][]byte) {
 	c.Mark(class, fmt.Sprintf("%s %s: %s", svc, class, desc))
 	sp := svcSpecs[svc]
-	ip, port := clientAddr(0)
+	udpSource++
+	ip, port := fmt.Sprintf("10.%d.%d.%d", 64+(udpSource>>16)&63, (udpSource>>8)&255, udpSource&255), 40000
 	for _, d := range dgrams {
 		s.SendUDP(serverIP, sp.port, ip, port, d)
 		lab.Quiesce()
@@ -519,7 +526,7 @@ func runC01(c *core.Ctx) {
 				udpScenario(c, s, svc, "seed", a.name+" "+qs(a.b), [][]byte{a.b})
 				for _, b := range seeds {
 					udpScenario(c, s, svc, "seq2", a.name+" ; "+b.name, [][]byte{a.b, b.b})
-					if depth >= 3 {
+					if depth >= 3 || len(seeds) <= 24 { // triples from one source address (a stateful exchange: request, block, retransmission)
 						for _, d := range seeds {
 							udpScenario(c, s, svc, "seq3", a.name+" ; "+b.name+" ; "+d.name, [][]byte{a.b, b.b, d.b})
 						}
